@@ -1,6 +1,6 @@
 ------------------------------ MODULE MC_Team ------------------------------
 (* Input universes for the model checking leg.  The universe is a UNION of sub-universes, each of which varies one aspect *)
-(* richly (V: who defines a variable, P: which car lists which config bases, T: template trees and archive content, C: data path layouts)       *)
+(* richly (V: who defines a variable, P: which car lists which config bases, T: template trees and archive content, C: data path layouts, N: several nodes from one car)       *)
 (* and keeps the others small, instead of one unaffordable product.                                                        *)
 EXTENDS Team
 
@@ -41,7 +41,7 @@ UniverseV(names, bnames, layouts) ==
     UNION {
     {[cars |-> [i \in 1..n |-> Car(i, lay[i], Def(cf[i], nm, CarName(i)))],
       bases |-> [b \in bnames |-> [vars |-> Def(bf[b], nm, b), tree |-> TreeV[b]]],
-      params |-> pv, tpl |-> Tpl, shipped |-> ShipBare, preserve |-> pr, node |-> Node] :
+      params |-> pv, tpl |-> Tpl, shipped |-> ShipBare, preserve |-> pr, node |-> Node, more |-> <<>>] :
         lay \in layouts, n \in 1..3, cf \in [1..3 -> BOOLEAN], bf \in [bnames -> BOOLEAN],
         pv \in ParamsFor(nm), pr \in BOOLEAN} : nm \in names}
 
@@ -70,7 +70,7 @@ UniverseP(bnames, maxBases, maxCars) ==
     LET BaseSeqs == SeqsUpTo(bnames, maxBases) IN
     {[cars |-> [i \in DOMAIN bl |-> Car(i, bl[i], NoVars)],
       bases |-> [b \in bnames |-> [vars |-> "x" :> Val(b), tree |-> tp[b]]],
-      params |-> NoVars, tpl |-> Tpl, shipped |-> ShipFull, preserve |-> FALSE, node |-> Node] :
+      params |-> NoVars, tpl |-> Tpl, shipped |-> ShipFull, preserve |-> FALSE, node |-> Node, more |-> <<>>] :
         bl \in UNION {[1..n -> BaseSeqs] : n \in 1..maxCars}, tp \in TreePairs}
 
 -----------------------------------------------------------------------------
@@ -87,7 +87,7 @@ Choices(maxFiles) == {ch \in [1..4 -> {"-", "a", "b"}] : Cardinality({i \in 1..4
 UniverseT(maxFiles) ==
     {[cars |-> cl,
       bases |-> [b \in {"b1", "b2"} |-> [vars |-> "x" :> Val(b), tree |-> IF b = "b1" THEN TreeOf(c1) ELSE TreeOf(c2)]],
-      params |-> NoVars, tpl |-> Tpl, shipped |-> sh, preserve |-> FALSE, node |-> Node] :
+      params |-> NoVars, tpl |-> Tpl, shipped |-> sh, preserve |-> FALSE, node |-> Node, more |-> <<>>] :
         cl \in {<<Car(1, <<"b1", "b2">>, "x" :> Val("c1"))>>, <<Car(1, <<"b2">>, NoVars), Car(2, <<"b1">>, NoVars)>>},
         c1 \in Choices(maxFiles), c2 \in Choices(maxFiles), sh \in {ShipFull, ShipBare}}
 
@@ -99,9 +99,21 @@ DataVals == {S("$ES-data"), L(<<"$ES/data", "$ES.data0", "$ES.data1">>), S("$ES/
 UniverseC ==
     {[cars |-> <<Car(1, <<"b1">>, cv)>>,
       bases |-> [b \in {"b1"} |-> [vars |-> bv, tree |-> TreeV[b]]],
-      params |-> pv, tpl |-> Tpl, shipped |-> ShipBare, preserve |-> pr, node |-> Node] :
+      params |-> pv, tpl |-> Tpl, shipped |-> ShipBare, preserve |-> pr, node |-> Node, more |-> <<>>] :
         cv \in {NoVars, DP(S("$DATA/c1")), DP(S("$ES-data"))}, bv \in {NoVars, DP(S("$ES.data0"))},
         pv \in {NoVars} \cup {DP(v) : v \in DataVals}, pr \in BOOLEAN}
+
+\* N: several nodes of one host provisioned one after the other from the one composed car x who (if anybody) defines data_paths
+Later(j) == [vars |-> [http_port |-> S("3920" \o j), log_path |-> S("$NODE" \o j \o "/logs/server"), install_root_path |-> S("$ES" \o j),
+                       minimum_master_nodes |-> S("1"), cluster_settings |-> S("{}")],
+             default_data |-> "$ES" \o j \o "/data", home |-> "$ES" \o j]
+UniverseN ==
+    {[cars |-> <<Car(1, <<"b1">>, cv), Car(2, <<"b2">>, NoVars)>>,
+      bases |-> [b \in {"b1", "b2"} |-> [vars |-> bv, tree |-> TreeV[b]]],
+      params |-> pv, tpl |-> Tpl, shipped |-> ShipBare, preserve |-> pr, node |-> Node, more |-> mo] :
+        cv \in {NoVars, DP(S("$DATA/c1")), "http_port" :> S("1")}, bv \in {NoVars, DP(S("$DATA/b1"))},
+        pv \in {NoVars, DP(L(<<"$DATA/p", "$DATA/q">>)), "x" :> Val("p")}, pr \in BOOLEAN,
+        mo \in {<<Later("2")>>, <<Later("2"), Later("3")>>}}
 
 \* (disjunctions of memberships, not one big union: TLC would build the union eagerly and quadratically at start-up)
 InitWith(U) == inp \in U /\ out = ErrOut("pending") /\ done = FALSE
@@ -109,12 +121,15 @@ InitQuick == \/ InitWith(UniverseV({"x", "http_port", "data_paths"}, {"b1", "b2"
              \/ InitWith(UniverseP({"b1", "b2"}, 2, 3))
              \/ InitWith(UniverseT(2))
              \/ InitWith(UniverseC)
+             \/ InitWith(UniverseN)
 InitThorough == \/ InitWith(UniverseV({"x", "http_port", "data_paths", "log_path"}, {"b1", "b2", "b3"}, LayoutsT))
                 \/ InitWith(UniverseP({"b1", "b2", "b3"}, 2, 3))
                 \/ InitWith(UniverseT(3))
                 \/ InitWith(UniverseC)
+                \/ InitWith(UniverseN)
 InitSelf == \/ InitWith(UniverseV({"x", "http_port", "data_paths"}, {"b1", "b2"}, LayoutsQ))
             \/ InitWith(UniverseP({"b1", "b2"}, 2, 2))
             \/ InitWith(UniverseT(1))
             \/ InitWith(UniverseC)
+            \/ InitWith(UniverseN)
 =============================================================================
